@@ -140,6 +140,13 @@ func (r *Response) body() {
 	}
 }
 
+// MarkClosed tells the parser the connection ended: a close-delimited body is then complete.
+func (r *Response) MarkClosed() {
+	if r.HeaderDone && !r.Complete && !r.chunked && r.remain < 0 {
+		r.Complete = true
+	}
+}
+
 // TakeBody returns and clears the body bytes decoded so far (for streaming consumers).
 func (r *Response) TakeBody() []byte {
 	b := r.Body
